@@ -794,6 +794,8 @@ json gen_api_step(Rng &r, int cl, int ctx, const std::vector<OptRef> &refs, cons
 		s["op"] = std::string((g.by_option && r.chance(1, 3)) ? "oset" : "set") + t;
 		s["v"] = typed_value(r, t, g.hostile_strings);
 		s["idx"] = list ? (unsigned)r.range(0, 3) : 0u;
+		if (t == "str" && s["op"] == "setstr" && r.chance(1, 6))
+			s["self"] = true; // the current value itself is passed back
 	} else if (k < 5 && g.text_setters) {
 		s["op"] = "setopt";
 		s["v"] = to_json_bytes(text_value(r, t, g.bad_text && r.chance(1, 3)));
